@@ -46,6 +46,11 @@ ASSUMPTIONS = [
     'the rendering of a sorted NLRI dictionary as key string is injective (no double quote inside keys/values); '
     'that the sorted association list identifies the dictionary is proved (C19_key_injective)',
     'the model is of the code with build/proposed/c19-receive-version-family-match.diff applied',
+    'session end: closeConnection is modelled on a connected transport (it is only reached from a live session: '
+    'header error, hold timer, manual stop, NOTIFICATION received - all four are driven on the real FSM), and '
+    'nothing is delivered to the object between its closeConnection and its connectionLost (the transport stops '
+    'reading after loseConnection); connectionLost is modelled with its test of `disconnected` (both branches '
+    'are compared with the implementation and covered by C19_empty_after_drop / C19_empty_after_any_drop)',
 ]
 KNOWN_VPN = 'C19-vpnv4-withdraw-label'
 
